@@ -294,16 +294,30 @@ func runBatch(cfg *config, b *built, outDir string) *batchResult {
 		go func(w int) {
 			defer wg.Done()
 			first := 0
+			myWatchdogs := 0
 			for gen := 0; gen < 300; gen++ {
 				left := time.Until(deadline).Seconds()
 				if left < 1 {
 					return
 				}
 				tag := fmt.Sprintf("%d-g%d", w, gen)
-				cmd := workerCmd(b, outDir, w, "batch",
+				args := []string{"batch",
 					"-seed", fmt.Sprint(cfg.seed), "-worker", fmt.Sprint(w), "-tier", cfg.tier,
 					"-seconds", fmt.Sprintf("%.1f", left), "-first", fmt.Sprint(first),
-					"-out", outDir, "-sites", fmt.Sprint(b.nsites), "-tag", tag)
+					"-out", outDir, "-sites", fmt.Sprint(b.nsites), "-tag", tag}
+				if myWatchdogs >= 2 {
+					// the library blocks in ways the scheduler cannot own (it did so
+					// twice already): the rest of this worker's runs are uncontrolled
+					args = append(args, "-free")
+				}
+				cmd := workerCmd(b, outDir, w, args...)
+				if myWatchdogs >= 2 {
+					for i, e := range cmd.Env {
+						if strings.HasPrefix(e, "GOMAXPROCS=") {
+							cmd.Env[i] = "GOMAXPROCS=4"
+						}
+					}
+				}
 				err := cmd.Run()
 				code := 0
 				if err != nil {
@@ -349,6 +363,7 @@ func runBatch(cfg *config, b *built, outDir string) *batchResult {
 					mu.Lock()
 					res.watchdogs++
 					mu.Unlock()
+					myWatchdogs++
 					ftag := tag + "-free"
 					fcmd := workerCmd(b, outDir, w, "batch",
 						"-seed", fmt.Sprint(cfg.seed), "-worker", fmt.Sprint(w), "-tier", cfg.tier,
